@@ -268,3 +268,18 @@ def register(R):
     cwf.raises = {'Exception': only_propagates}
     cwf.modifies = lambda c: [('g', ('body', c.a_body.label), 'pos')] if isinstance(c.a_body, Opaque) else []
     cwf.loops = {0: LoopSpec(invariant=wtf_inv, iteration_checks=wtf_iteration)}
+
+    # ------------------------------------------------------------------ ProcessPoolDownloader.shutdown
+    PPD = f'{PP}:ProcessPoolDownloader'
+    R.mark_inline(f'{PPD}._shutdown_if_needed')
+
+    def ppd_sd_checks(c):
+        sd = calls(c.trace, 'ProcessPoolDownloader._shutdown')
+        started = c.oldf('_started')
+        from .spec import b2z
+        return {'a_started_downloader_is_shut_down_exactly_once_else_nothing_happens': (
+            z3.If(b2z(started), B(len(sd) == 1), B(len(sd) == 0)), ['C19'])}
+
+    cps = R.contracts[f'{PPD}.shutdown']
+    cps.props, cps.checks, cps.raises = ('C19',), ppd_sd_checks, {'Exception': only_propagates}
+    cps.modifies = lambda c: [('f', c.self, '_started')]
